@@ -11,8 +11,8 @@ Definition cnode (k : Z) (name : string) (adj : list (Z * Z)) : nrec :=
   {| nk := k; na := [(S "fragname", VStr (S name))]; nadj := map (fun wo => (fst wo, [(S "order", VInt (snd wo))])) adj |}.
 Definition tnode (k : Z) (frag name : string) (bonding : list string) (adj : list (Z * Z)) : nrec :=
   {| nk := k;
-     na := [(S "fragname", VStr (S frag)); (S "atomname", VStr (S name)); (S "fragid", VInt 0)]%list
-           ++ (match bonding with [] => [] | _ => [(S "bonding", VList (map (fun d => VStr (S d)) bonding))] end)%list;
+     na := app [(S "fragname", VStr (S frag)); (S "atomname", VStr (S name)); (S "fragid", VInt 0)]
+               (match bonding with [] => [] | _ => [(S "bonding", VList (map (fun d => VStr (S d)) bonding))] end);
      nadj := map (fun wo => (fst wo, [(S "order", VInt (snd wo))])) adj |}.
 
 (** #A=[$][#X][#Y]   #B=[$][#P] *)
